@@ -59,5 +59,34 @@ META = {
   "design_ref": "DESIGN.md 6 C10",
   "technique": "TLA+ mutation generator + recogniser first-bad-line oracle, replay into parser / `klog print` / `klog json`, TLC trace validation",
  },
+ "C03": {
+  "text": "TLC explores the command model MC_Cli (seed files x every mutating command x parameters x clock/config variants; command pairs), "
+          "checking the abstract model's invariants; every history is replayed through the real CLI entry point on a real file and "
+          "TLC judges every step against the frame predicates of KReconcile (which lines may change, where lines may be added).",
+  "design_ref": "DESIGN.md 6 C03",
+  "technique": "TLA+ command model (KCli) explored by TLC, histories replayed into klog.Run on real files, TLC trace validation with frame predicates (KReconcile)",
+ },
+ "C04": {
+  "text": "TLC explores histories of the abstract command model KCli (single commands, pairs, triples; the model's invariants and effect "
+          "predicate are checked on every transition); each history is replayed through the real CLI, the file written by one command being "
+          "the input of the next, and TLC judges for every step that the re-read records are exactly what the model permits (EffectOK) and "
+          "that commands the model rejects fail without change.",
+  "design_ref": "DESIGN.md 6 C04",
+  "technique": "TLA+ abstract command model (KCli.Model/EffectOK) model-checked by TLC; histories replayed into the real CLI incl. `klog pause` via hook H1; TLC trace validation",
+ },
+ "C05": {
+  "text": "Same exploration as C03 with valid and invalid seed files and failing parameters; TLC judges for every step: success implies the "
+          "written file is accepted by the real parser and not violating for the recogniser; failure implies byte-identical, untouched file "
+          "and non-zero exit status; no panic.",
+  "design_ref": "DESIGN.md 6 C05",
+  "technique": "TLC-generated command histories replayed into the real CLI; TLC trace validation of atomicity predicates",
+ },
+ "C11": {
+  "text": "Seed files with per-record style combinations (ties, records without style, whitespace-only lines) x mutating commands x "
+          "date_format/time_convention settings; every case is executed three times; TLC judges the style of the added lines (indentation, "
+          "line ending, date separator, clock convention, dash spacing, placeholder length) against what the file exhibits, and determinism.",
+  "design_ref": "DESIGN.md 6 C11",
+  "technique": "TLC-generated scenarios replayed into the real CLI (repeated execution); TLC trace validation of style predicates",
+ },
 }
 HOOK_COMMITS = ["022feb6", "3577f1d", "054219c"]
